@@ -338,6 +338,23 @@ def stale_check(svg, tier):
         "seg.control=": lambda o: setattr(stale.c18.first_seg_with(o, "control"), "control", svg.Point(30, -40)),
         "subpath.reverse": lambda o: o.subpath(0).reverse() if isinstance(o, svg.Path) else stale.c18._na(),
     }
+
+    def iadd_measured(text):
+        # the right operand of += has been measured itself (its own memo is filled) before it is appended; a move-less
+        # or closing operand is re-linked to the left path on the way, so its measured lengths are not those it has there
+        def f(o):
+            if not isinstance(o, svg.Path):
+                stale.c18._na()
+            b = svg.Path(text)
+            try:
+                b.length(error=1e-4)
+            except Exception:  # noqa
+                pass
+            o += b
+        return f
+    for k, text in (("+=measured:L-frag", "L 20,5 L 20,20"), ("+=measured:Lz-frag", "L 0,10 z"), ("+=measured:M", "M1,1 L5,5 z"),
+                    ("+=measured:z", "z")):
+        extra[k] = iadd_measured(text)
     # derivations as "mutations" of the measured object are C18's business; here also: a new object made from a measured one
     derive = {
         "Path(subpath(last))": lambda o: svg.Path(o.subpath(len(list(o.as_subpaths())) - 1)) if isinstance(o, svg.Path) else stale.c18._na(),
